@@ -251,11 +251,22 @@ impl Deref for MaybeString {
 /// In place conversion to CRLF line endings
 fn in_place_crlf_line_endings(string: &mut String) {
     let indices = find_all_lf_char_indices(string);
-
-    for i in indices {
-        // this relies on `indices` being in reverse order
-        string.insert(i, '\r');
+    if indices.is_empty() {
+        return;
     }
+
+    // One pass over the text: inserting each `\r` on its own moves the rest
+    // of the string every time, which is quadratic in the number of lines
+    let mut converted = String::with_capacity(string.len() + indices.len());
+    let mut start = 0;
+    // this relies on `indices` being in reverse order
+    for i in indices.into_iter().rev() {
+        converted.push_str(&string[start..i]);
+        converted.push('\r');
+        start = i;
+    }
+    converted.push_str(&string[start..]);
+    *string = converted;
 }
 
 /// Find indices to all places where `\r` should be inserted
